@@ -2,6 +2,7 @@ import MinaModel.Animator
 import MinaModel.Spec.Timing
 import MinaModel.Spec.CssValue
 import MinaModel.Bevy
+import MinaModel.Quat
 import MinaModel.Macro.Animator
 import MinaModel.Macro.Derive
 import Std.Data.HashMap
@@ -326,6 +327,17 @@ def runLine (st : Session) (line : String) : Session × String := Id.run do
     let a := (List.range n).map fun i => parseVal k w[4+i]!
     let b := (List.range n).map fun i => parseVal k w[4+n+i]!
     return (st, showExc ((lerpVec a b (fb w[4+2*n]!)).map showVals))
+  | "quat" =>
+    -- `impl Lerp for Quat`: glam's SSE2 `Quat::lerp`
+    let g := fun i => fb w[i]!
+    let r := Q4.lerpSse Float32.sqrt (fun d : F => d.toBits >>> 31 == 1) ⟨g 1, g 2, g 3, g 4⟩ ⟨g 5, g 6, g 7, g 8⟩ (g 9)
+    return (st, " ".intercalate [bits r.x, bits r.y, bits r.z, bits r.w])
+  | "dquat" =>
+    -- `impl Lerp for DQuat`: glam's scalar `DQuat::lerp(…, x as f64)`
+    let g := fun i => Float.ofBits (UInt64.ofNat w[i]!.toNat!)
+    let r := Q4.lerpScalar Float.sqrt (fun d : Float => d >= 0.0) 1.0 ⟨g 1, g 2, g 3, g 4⟩ ⟨g 5, g 6, g 7, g 8⟩ (fb w[9]!).toFloat
+    let b64 := fun (x : Float) => toString x.toBits.toNat
+    return (st, " ".intercalate [b64 r.x, b64 r.y, b64 r.z, b64 r.w])
   | "ease" =>
     let e := parseEasing w[1]!
     let outs := (w.toList.drop 2).map fun t => bits (e.calc (fb t))
